@@ -22,8 +22,16 @@ clause it transcribes.
   The fields are advanced by whoever steps the environment: here the contract
   stub of the single-task training routine (contracts/C11_sched.py, `record_episodes`).
 
-* collections.deque(maxlen=m) holding episode returns: only `extend(queue)` and
-  `np.mean(deque)` are used; the mean is an unconstrained real.
+* collections.deque (model in ext_loops: window over an append-only log): added here
+  `d.extend(return_queue)` = len(queue) further appends of unconstrained values, and
+  `np.mean(d)` / `np.mean(return_queue)` = an unconstrained real.
+
+* `[elt for s in range(lo, hi) if cond]` over a symbolic range, consumed by `np.sum`:
+  the sum of the filtered list is  sum_{s in [lo, hi)} (elt(s) if cond(s) else 0), a `Fold`
+  (sum DEFINED by its recurrence F(lo) = 0, F(j+1) = F(j) + term(j)); `fold_equal` proves two
+  folds equal by the induction schema of ext_returns (base / step obliged).
+
+* `l[:-1]` on a python list of symbolic length: the list without its last element.
 
 * numpy: `np.zeros(n, dtype)` / `np.full(n, v)` as MUTABLE rank-1 arrays when the
   contract sets `shared.sched_mutable_arrays` (in-place `a[i] += x`, `a[:] = v`),
@@ -396,8 +404,11 @@ def fold_equal(E, name, A: Fold, B: Fold, params=()):
     from .ext_returns import induct
 
     n0 = len(E.st.results)
-    E.oblige(f"{name}.same_window", C.mk(z3.And(A.lo == B.lo, A.hi == B.hi)))
     pz = [C.to_z3(x) for x in params]
+    # quantifier-free side conditions first (crisp counter-models): same window, pointwise equal summands
+    E.st.oblige(f"{name}.same_window", z3.And(A.lo == B.lo, A.hi == B.hi), using=[])
+    E.st.oblige_forall(f"{name}.same_summand_at_every_position", [INT],
+                       lambda s: z3.Implies(z3.And(A.lo <= s, s < A.hi), C.to_z3(A.term(*pz, s)) == C.to_z3(B.term(*pz, s))), hint="s", using=[])
     width = z3.If(A.hi >= A.lo, A.hi - A.lo, z3.IntVal(0))
     ok = induct(E, f"{name}.partial_sums_agree", width, [], lambda j: A.F(*pz, A.lo + j) == B.F(*pz, A.lo + j))
     if ok:
